@@ -335,6 +335,10 @@ func (d DimEnum) Parse(s string) (int, bool) {
 		return int(x), true
 	case gcdims.DimensionThree:
 		return int(x), true
+	case Tier:
+		return int(x), true
+	case Zone:
+		return int(x), true
 	}
 	return 0, false
 }
